@@ -51,10 +51,10 @@ PLAN = {
         "assumptions": FW_ASSUMPTIONS,
     },
     "C07": {
-        "parts": [{"engine": "fwsim", "quick": 100000, "thorough": 5000000}],
-        "nontrivial": ">=1 eviction happened and >=1 MustBeFresh lookup met a stale cached packet",
-        "fault_note": PLAN_FW_FAULTS + "; clock: freshness periods cross their boundary through scenario-chosen advances (0, +-1 ms around periods)",
-        "components": FW_COMPONENTS,
+        "parts": [{"engine": "fwsim", "quick": 100000, "thorough": 5000000}, {"engine": "cssim", "quick": 40000, "thorough": 3000000, "quick_wall": 60}],
+        "nontrivial": "(forwarder part) >=1 eviction happened and >=1 MustBeFresh lookup met a stale cached packet; (table part) >=1 eviction and (>=1 stale packet withheld from a MustBeFresh lookup or >=1 prefix lookup answered with a longer name)",
+        "fault_note": PLAN_FW_FAULTS + "; clock: freshness periods cross their boundary through scenario-chosen advances (0, +-1 ms around periods). Table part: the same histories issued directly at the Content Store's table interface (insertions, refreshes, exact/prefix lookups, capacity changes, pending Interests that add name-tree nodes) on the simulated clock",
+        "components": {"real": FW_COMPONENTS["real"] + ["(table part) fw/table PitCsTree Content Store + CsLRU, called directly"], "stub": FW_COMPONENTS["stub"]},
         "assumptions": FW_ASSUMPTIONS + ["'hit by an exact-name lookup' is read as a lookup without CanBePrefix"],
     },
 }
@@ -143,6 +143,7 @@ ENGINES = [
     {"name": "linksim", "path": "sim/facesim/link.go", "serves_properties": ["C10"], "kind_free_text": "two real link services joined by a simulated datagram link that permutes, drops and duplicates frames"},
     {"name": "streamsim", "path": "sim/facesim/stream.go", "serves_properties": ["C11"], "kind_free_text": "scripted stream socket (chunking, transient errors, EOF) under the real stream framing loops"},
     {"name": "enginesim", "path": "sim/enginesim", "serves_properties": ["C20"], "kind_free_text": "real application engine on a simulated face and timer (event heap; scenario-chosen interleaving of arrivals and timer firings), on the repository's dummy timer/face, or on its production timer inside a synctest bubble"},
+    {"name": "cssim", "path": "sim/cssim", "serves_properties": ["C07"], "kind_free_text": "one Content Store driven through its table interface in a synctest bubble (fake clock) against a reference LRU cache"},
     {"name": "tablesim", "path": "sim/tablesim", "serves_properties": ["C05", "C06", "C08"], "kind_free_text": "operation histories (with face teardown injected) against the real FIBs and RIB; reference models; shrinking; replay"},
     {"name": "fwsim", "path": "sim/fwsim", "serves_properties": ["C01", "C02", "C07", "C08", "C09"], "kind_free_text": "one real forwarding thread in a synctest bubble (fake clock, quiescence stepping), simulated faces and scripted peers, reference PIT/CS/FIB model"},
 ]
